@@ -15,6 +15,8 @@ ARG_SETS = [
     ['"s"'], ['"s"', ":a"], ["nil"], ["[1]", "{a: 1}"], ["1.5", "nil", '"s"'],
     ["n: 1"], ["n: 1", "m: 2"], ["1", "k: 2"], ["*[1, 2]"], ["**{a: 1}"],
 ]
+RESERVED = set("alias and begin break case class def defined? do else elsif end ensure false for if in module next nil not or redo rescue retry return self "
+               "super then true undef unless until when while yield __method__ loop".split())
 BLOCKS = ["", "", "", " { |bz| bz }", " { |bz, by| by }", " do |bz|\n  bz\nend", " { }"]
 
 
@@ -60,6 +62,9 @@ def receiver(frame, cls, static):
 def call_text(recv, name, args, block):
     a = ", ".join(args)
     if recv is None:
+        if name in RESERVED:
+            # `class()` is not a call in Ruby: a method whose name is a keyword needs a receiver
+            return "self.%s(%s)%s" % (name, a, block)
         return "%s(%s)%s" % (name, a, block)
     if not name[:1].isalpha() and name[:1] != "_":
         # operator method: binary form for one argument, explicit send form otherwise
